@@ -50,4 +50,133 @@ def lineage (xo : List ρ) (P : Proto) (nself : Nat) (pop : Pop α) (cross : Lis
   | .fourWayDH =>
       dhPred xo (selfN xo nself (crossPred xo (crossPred xo (par 2) (par 3)) (crossPred xo (par 0) (par 1))))
 
+
+/-! ### pedigree terms and the joint (hidden-state) test
+
+`lineage` quantifies over the intermediate hybrids.  The same statement in decidable form: a
+pedigree *term* describes how an individual is made, a hidden *state* is one bit per gamete of the
+term ("which copy of its parent does this gamete read at the current marker"), and the state may
+change only at a marker with positive crossover probability.  Both copies of the observed
+individual are read through the *same* state — this is what ties them to one hybrid. -/
+
+inductive Ped where
+  | leaf (s : Nat)          -- taxon `s` of the parental matrix
+  | cross (f m : Ped)       -- copy 0 = a gamete of `f`, copy 1 = a gamete of `m`
+  | self (h : Ped)          -- both copies are gametes of the one individual `h`
+  | dh (h : Ped)            -- one gamete of `h`, doubled
+  deriving Repr
+
+/-- number of gametes (hidden bits) of a term -/
+def Ped.bits : Ped → Nat
+  | .leaf _ => 0
+  | .cross f m => 2 + f.bits + m.bits
+  | .self h => 2 + h.bits
+  | .dh h => 1 + h.bits
+
+/-- allele at marker `j` of copy `k` of the individual described by the term, under hidden state `σ`
+    (layout of `σ`: the term's own gamete bits first, then the states of its sub-terms) -/
+def Ped.allele (pop : Pop α) (j : Nat) : Ped → Bool → List Bool → Option α
+  | .leaf s, k, _ => (pop[s]?).bind (fun i => (if k then i.2 else i.1)[j]?)
+  | .cross f m, k, σ =>
+      if k then m.allele pop j (σ.getD 1 false) ((σ.drop 2).drop f.bits)
+      else f.allele pop j (σ.getD 0 false) ((σ.drop 2).take f.bits)
+  | .self h, k, σ => h.allele pop j (σ.getD (if k then 1 else 0) false) (σ.drop 2)
+  | .dh h, _, σ => h.allele pop j (σ.getD 0 false) (σ.drop 1)
+
+/-- the predicate a term stands for (same connectives as `lineage`) -/
+def Ped.sat (xo : List ρ) (pop : Pop α) : Ped → Ind α → Prop
+  | .leaf s => isInd pop s
+  | .cross f m => crossPred xo (f.sat xo pop) (m.sat xo pop)
+  | .self h => selfPred xo (h.sat xo pop)
+  | .dh h => dhPred xo (h.sat xo pop)
+
+def pedSelf : Nat → Ped → Ped
+  | 0, t => t
+  | n + 1, t => pedSelf n (.self t)
+
+/-- the term of a progeny of configuration row `cross` (`lineage … = (pedOf …).sat`) -/
+def pedOf (P : Proto) (nself : Nat) (cross : List Nat) : Ped :=
+  let par (k : Nat) : Ped := .leaf (cross.getD k 0)
+  match P with
+  | .self => pedSelf nself (.cross (par 0) (par 0))
+  | .twoWay => pedSelf nself (.cross (par 0) (par 1))
+  | .twoWayDH => .dh (pedSelf nself (.cross (par 0) (par 1)))
+  | .threeWay => pedSelf nself (.cross (par 0) (.cross (par 1) (par 2)))
+  | .threeWayDH => .dh (pedSelf nself (.cross (par 0) (.cross (par 1) (par 2))))
+  | .fourWay => pedSelf nself (.cross (.cross (par 2) (par 3)) (.cross (par 0) (par 1)))
+  | .fourWayDH => .dh (pedSelf nself (.cross (.cross (par 2) (par 3)) (.cross (par 0) (par 1))))
+
+/-- all bit vectors of length `n` -/
+def allStates : Nat → List (List Bool)
+  | 0 => [[]]
+  | n + 1 => (allStates n).flatMap (fun s => [false :: s, true :: s])
+
+/-- state `σ` explains both observed cells at marker `j` -/
+def pedOK [BEq α] (t : Ped) (pop : Pop α) (c : Ind α) (σ : List Bool) (j : Nat) : Bool :=
+  c.1[j]? == t.allele pop j false σ && c.2[j]? == t.allele pop j true σ
+
+/-- reachability over hidden states: `reach` = the states that explain the markers read so far;
+    at a marker with positive crossover probability every state may follow any reachable one -/
+def pedDP {S : Type} [DecidableLT ρ] (all : List S) (ok : S → Nat → Bool) :
+    List S → Nat → List ρ → Bool
+  | reach, _, [] => !reach.isEmpty
+  | reach, j, x :: xs =>
+      let cand := if decide (0 < x) && !reach.isEmpty then all else reach
+      pedDP all ok (cand.filter (fun σ => ok σ j)) (j + 1) xs
+
+/-- the joint pedigree test of one individual -/
+def pedCheck [BEq α] [DecidableLT ρ] (t : Ped) (pop : Pop α) (xo : List ρ) (c : Ind α) : Bool :=
+  c.1.length == xo.length && c.2.length == xo.length &&
+  pedDP (allStates t.bits) (pedOK t pop c) (allStates t.bits) 0 xo
+
+/-! ### the decidable Spec evaluated on implementation outputs -/
+
+section spec
+variable [DecidableLT ρ]
+
+/-- up to this selfing depth the joint pedigree test is part of the Spec (its state space is
+    `2 ^ bits`, at most 2^11 for a four-way DH with two selfings); deeper lines keep the per-copy test -/
+def jointDepth : Nat := 2
+
+/-- Spec of one output row: its family label names a cross of the configuration, both chromosome
+    copies are mosaics of the haplotypes that cross assigns to their side, DH ⇒ the copies agree,
+    and (nself ≤ 2) the two copies are *jointly* explained by one choice of intermediate hybrids -/
+def rowOK [BEq α] [LT ρ] [DecidableLT ρ] [OfNat ρ 0] (P : Proto) (nself : Nat) (pop : Pop α)
+    (xc : List (List Nat)) (xo : List ρ) (fc : Nat) (r : Row α) : Bool :=
+  decide (fc ≤ r.grp) &&
+  match xc[r.grp - fc]? with
+  | none => false
+  | some cross =>
+    let s := sources P nself pop cross
+    mosaicCheck s.1 xo r.ind.1 && mosaicCheck s.2 xo r.ind.2 && (!P.isDH || r.ind.1 == r.ind.2) &&
+      (decide (jointDepth < nself) || pedCheck (pedOf P nself cross) pop xo r.ind)
+
+/-- names: in generation order when no name outgrows the 7-digit field; in general the generated
+    names, each in the family it was generated for -/
+def namesOK (pre : List Nat) (pc cnt : Nat) (genGrp : List Nat) (rows : List (Row α)) : Bool :=
+  let expect := (Np.arange pc cnt).map (name pre)
+  if pc + cnt ≤ 10 ^ 7 then rows.map Row.name == expect
+  else
+    rows.all (fun r => (List.zip expect genGrp).contains (r.name, r.grp)) &&
+    (rows.map Row.name).isPerm expect
+
+/-- the Spec of C01 on one `mate()` call: inputs, and the outputs of the implementation -/
+def specMate [BEq α] [LT ρ] [DecidableLT ρ] [OfNat ρ 0] (P : Proto) (pop : Pop α) (xc : List (List Nat))
+    (nmating nprogeny : Cnt) (nself : Nat) (xo : List ρ) (pc fc : Nat) (out : Out α) : Bool × String :=
+  match nmating.expand xc.length, nprogeny.expand xc.length with
+  | .ok nm, .ok np =>
+    let per := List.zipWith (· * ·) nm np
+    let cnt := Np.sum per
+    let genGrp := Np.repeatEach per (Np.arange fc xc.length)
+    let cCount := out.rows.length == cnt
+    let cGrp := out.rows.map Row.grp == genGrp
+    let cNames := namesOK P.pre pc cnt genGrp out.rows
+    let cCtr := out.pc == pc + cnt && out.fc == fc + xc.length
+    let cRows := out.rows.all (rowOK P nself pop xc xo fc)
+    (cCount && cGrp && cNames && cCtr && cRows,
+     s!"count={cCount} family={cGrp} names={cNames} counters={cCtr} mosaic={cRows}")
+  | _, _ => (false, "count arrays rejected")
+
+end spec
+
 end Mating
